@@ -606,6 +606,8 @@ def oracle_run(cfg, max_fail=40):
                 if dn is None: continue
                 rec['d'][nm] = (dn, {f: np.asarray(getattr(dis, f).raw[au], dtype=bool) for f in facts[dn]['flags']})
                 rec['hops'][nm] = module_steps.get(dis.name, 0)
+                if hasattr(dis, 'ti_dead') and hasattr(dis, 'ti_infected'):     # the disease's own death clock and infection time
+                    rec.setdefault('clocks', {})[nm] = (np.asarray(dis.ti_dead.raw[au], dtype=float), np.asarray(dis.ti_infected.raw[au], dtype=float))
             module_steps.clear()
             snaps.append(rec)
 
@@ -623,6 +625,15 @@ def oracle_run(cfg, max_fail=40):
             alive = sn['alive']
             # partition of the living
             check_partition(dn, fl, alive, sn['auids'], sn['ti'])
+            # death never precedes infection: a death time set by the disease belongs to an agent the disease infected
+            if nm in sn.get('clocks', {}):
+                td, tinf = sn['clocks'][nm]
+                b5 = np.isfinite(td) & ~np.isfinite(tinf)
+                if b5.any():
+                    j = int(np.flatnonzero(b5)[0])
+                    fail(dict(oracle='timer', disease=dn, timer='ti_dead', kind='death-without-infection'),
+                         f'{dn}: agent {int(sn["auids"][j])} at ti={sn["ti"]} has a disease death time (ti_dead={td[j]:g}) but was never infected '
+                         f'(ti_infected is nan; susceptible={bool(fl[S][j]) if S in fl else "?"}): {int(b5.sum())} agents', ti=sn['ti'], uid=int(sn['auids'][j]))
             # the dead hold none (models that resolve disease deaths)
             if spec['deaths']:
                 clear = spec.get('clear', comps)
